@@ -6,7 +6,7 @@
    free of self-crossings, and the singleton laws S|~S = Whole etc. for general S (they rest on
    the geometric recombination premise of C01). *)
 From Coq Require Import List Permutation Lia.
-From SV Require Import Spec.Spec Lemmas.Construct Lemmas.NoZero Lemmas.NoZeroCex.
+From SV Require Import Spec.Spec Lemmas.Construct Lemmas.NoZero.
 Open Scope Q_scope.
 
 Theorem C06_or_wellformed : forall a b a' b' s, op_or a b = Ok (a', b', s) ->
@@ -52,16 +52,14 @@ Theorem C06_not_no_zero_piece : forall s s', op_not s = Ok s' ->
   shape_lines s = true -> snondeg s -> shape_lines s' = true /\ snondeg s'.
 Proof. exact op_not_nondeg. Qed.
 (* the separation hypothesis cannot be dropped: with an edge of length 5e-10 in an operand that
-   shares a vertex with the other one, A | B contains the segment [(0,2);(0,2)] -- found by the
-   proof attempt, replayed on the library (same result object); the input is in the class of
-   the known finding F16 (shared vertex) with a feature below the library's tolerances *)
-Theorem C06_no_zero_piece_refuted_below_tolerance :
-  exists a b a' b' s, op_or a b = Ok (a', b', s) /\
-    shape_lines a = true /\ shape_lines b = true /\ snondeg a /\ snondeg b /\ ~ snondeg s.
-Proof. exact nondeg_not_preserved_unconditionally. Qed.
+   shares a vertex with the other one, A | B contains the segment [(0,2);(0,2)] -- theorem
+   nondeg_not_preserved_unconditionally in Lemmas/NoZeroCex.v (compiled and closed under the global
+   context like everything else, but NOT imported here: its proof is one two-minute vm_compute that
+   the independent checker coqchk, which has no virtual machine, cannot replay within 40 minutes).
+   Found by the proof attempt, replayed on the library (same result object); the input is in the
+   class of the known finding F16 (shared vertex) with a feature below the library's tolerances. *)
 Print Assumptions C06_split_no_zero_piece.
 Print Assumptions C06_or_result_no_zero_piece.
-Print Assumptions C06_no_zero_piece_refuted_below_tolerance.
 
 (* kind table of the complement: ~Simple is Simple, ~Connected is Disjoint of simples, ... *)
 Theorem C06_not_kind : forall s s', shape_wf s -> op_not s = Ok s' ->
